@@ -626,7 +626,20 @@ def gen_loops(mods):
                             continue
                         # unconditional advances  lv = lv[K:]  directly in the loop body
                         strides = []
+                        skipped = False      # a `continue` reachable before the advance starts the next iteration without consuming
+
+                        def has_continue(n):
+                            if isinstance(n, ast.Continue):
+                                return True
+                            if isinstance(n, (ast.While, ast.For, ast.FunctionDef, ast.Lambda)):
+                                return False     # belongs to an inner loop
+                            return any(has_continue(c) for c in ast.iter_child_nodes(n))
+
                         for st in node.body:
+                            if has_continue(st):
+                                skipped = True
+                            if skipped:
+                                continue
                             if isinstance(st, ast.Assign) and len(st.targets) == 1 and isinstance(st.targets[0], ast.Name) \
                                     and st.targets[0].id == lv and isinstance(st.value, ast.Subscript) \
                                     and isinstance(st.value.value, ast.Name) and st.value.value.id == lv \
@@ -655,6 +668,10 @@ def gen_loops(mods):
                             best = sdesc
                         if other:
                             best = "SUnknown"
+                        if skipped and not (best.startswith("SConst") and int(best.split()[1]) >= 1
+                                            or best.startswith("SAddConst") and int(best.split()[1]) >= 1 or best.startswith("SGuarded")):
+                            best = "SUnknown"
+                            unknown.append("%s: while over %s has a `continue` before the buffer is advanced" % (where, lv))
                         loops.append("(%s, %s, %s)" % (coq_str(where), coq_str(lv), best))
                     if isinstance(node, ast.For):
                         it = node.iter
